@@ -106,6 +106,145 @@ PROPS["C13"] = dict(
 )
 
 
+def nt_adf(st):
+    return int(st.get("n", 0)) >= 2 and int(st.get("nodes", 0)) >= 5
+
+
+SEM_RULE = ("generated ADFs (1-6 statements, quick; up to 7 thorough): 60% random formulas over all nine constructors (depth 1-4), 40% adversarial families "
+            "(propagation chains needing n grounding rounds, self-support, odd/even attack cycles, false-before-true dependencies, conditions constant only under grounding, "
+            "all-decided, xor/iff webs, conjunctive supports) plus the two pre-study instances; each ADF is parsed by the real parser from generated text and run on the native, "
+            "biodivine, hybrid and pre-grounded hybrid back-ends in random request order; native-store pipelines are compared handle for handle (vectors, residuals, node table) with the "
+            "Lean model, bridged stores are adopted after wfCheck + isoCheck (verified validators); every answer is compared as canonical T/F/u strings with the brute-force "
+            "specification Spec (enumeration of completions); non-trivial = distinct ADF with >= 2 statements and >= 5 diagram nodes")
+
+PROPS["C01"] = dict(
+    level_text="Machine-checked proof (Lean 4): the grounding loop, written once over a lawful restriction algebra, returns a fixpoint of the three-valued consequence operator that lies below "
+               "every fixpoint, within n+1 rounds (C01.grounded_is_lfp_any_backend); instantiated for the efficient native store (grounded_native_is_lfp) and end to end from the written "
+               "formulas through from_parser (grounded_native_from_formulas); least fixpoints are unique (grounded_unique); pre-grounding leaves the least fixpoint unchanged "
+               "(pregrounded_same_lfp); the bridge yields handles with the dump's functions (hybrid_bridge_then_native). Tie to the code: grounded on all four pipelines for generated "
+               "ADFs, handle-exact against the model on native-store pipelines, and against the brute-force specification on all.",
+    level_note="Trusted: Lean kernel + standard axioms; biodivine is an external library modelled as a lawful restriction algebra on Boolean functions (its dumps are validated by wfCheck/isoCheck on every "
+               "explored ADF, its algorithms are not verified); the executable specification Spec is not yet proved equal to the Prop-level Gam (both are compared with the implementation); "
+               "correspondence is differential (n <= 7).",
+    technique="Lean 4 proof (least-fixpoint argument over a generic restriction algebra, instantiated with the verified BDD store) + correspondence check + brute-force specification oracle",
+    jobs=[Job("adf", 1200, 40000, size=6, size_thorough=7, extra=("sem",),
+              relevant=heads("build", "adopt", "grounded", "adump", "wfcheck"), nontrivial=nt_adf)],
+    rule=SEM_RULE,
+    assumptions=["well-formed ADFs (every statement declared with exactly one ac, atoms declared); <= 2^16 statements for biodivine"],
+)
+PROPS["C02"] = dict(
+    level_text="Machine-checked proof (Lean 4) of the core: the short-circuiting, store-threading filter of Adf::complete accepts a vector iff its decided part is a fixpoint of the consequence "
+               "operator, for every lawful back-end (C02.filter_iff_fixpoint); the grounded interpretation is complete and lies below every complete interpretation, so enumerating only its "
+               "refinements loses nothing (grounded_below_every_complete, grounded_is_complete); pre-grounding preserves the set of complete interpretations (pregrounded_same_complete). "
+               "The statement about the concrete enumeration (Nodup, exactness, grounded first) is kept as complete_exact_statement and is a composition with C20's enumeration theorem "
+               "(PARTIAL: composition not yet proved). Tie to the code: complete models on native/biodivine/hybrid/pre-grounded pipelines, order-exact and handle-exact against the model, "
+               "multiset + first element against the brute-force specification.",
+    level_note="Trusted: Lean kernel + standard axioms; composition with the iterator theorem (C20) is stated, not yet proved; biodivine modelled as a lawful restriction algebra; correspondence differential (n <= 7).",
+    technique="Lean 4 proof (filter = fixpoint test over a generic restriction algebra) + correspondence check + brute-force specification oracle",
+    jobs=[Job("adf", 1200, 40000, size=6, size_thorough=7, extra=("sem",),
+              relevant=heads("build", "adopt", "complete", "adump", "wfcheck"), nontrivial=nt_adf)],
+    rule=SEM_RULE,
+    assumptions=["well-formed ADFs"],
+)
+PROPS["C03"] = dict(
+    level_text="Machine-checked proof (Lean 4) of the core: for a total candidate v, 'the least fixpoint of the reduct equals v at every position' (the code's test) iff 'v is a two-valued model whose true "
+               "statements are true in that least fixpoint' (the definition) (C03.check_iff_stable); the reduct's operator agrees with the consequence operator on total candidates (pre-filter "
+               "rejects no stable model: reduct_agrees_on_total); pre-grounding preserves the least fixpoints of all reducts above the grounded interpretation (pregrounded_same_reduct_lfp). "
+               "The statement about the concrete enumeration stableAll is kept as stable_exact_statement (PARTIAL: composition with C20/C01 not yet proved). Tie to the code: stable, "
+               "stable_with_prefilter, both stable_bdd_representation variants and the biodivine variants incl. the prepared rewriting, on all pipelines; handle/order exact where the order is "
+               "the library's own, multisets where biodivine's sat_valuations orders the candidates; all against the brute-force specification.",
+    level_note="Trusted: Lean kernel + standard axioms; biodivine's sat_valuations assumed to enumerate each satisfying valuation once (observed); composition theorem stated, not yet proved; correspondence differential (n <= 7).",
+    technique="Lean 4 proof (reduct / least-fixpoint characterisation of the stability test) + correspondence check + brute-force specification oracle",
+    jobs=[Job("adf", 1200, 40000, size=6, size_thorough=7, extra=("sem",),
+              relevant=heads("build", "adopt", "stable", "stablepre", "stablerew", "stablerew2", "adump", "wfcheck"), nontrivial=nt_adf)],
+    rule=SEM_RULE,
+    assumptions=["well-formed ADFs"],
+)
+
+ADF_GEN = ("generated ADFs (1-6 statements quick, up to 7 thorough; 60% random formulas over all nine constructors, 40% adversarial families, plus the pre-study instances), "
+           "parsed by the real parser from generated text; ")
+
+PROPS["C04"] = dict(
+    level_text="Machine-checked proof (Lean 4) for the generic store-threading search machine that has exactly the shape of two_val_model_counts_logic as repaired by D1: for EVERY selection "
+               "strategy, if the cube step, the flip step and the leaf satisfy the soundness laws CSound, the search is complete, sound, emits pairwise disjoint outputs, only extends the store "
+               "and needs n+1 levels (C04.search_exact, spec_meaning); the cube laws are theorems about the model of Bdd::interpretations (cube_laws) and the final filter is the stability "
+               "test of C03 (final_filter_is_stability). PARTIAL: discharging CSound for the concrete steps (will_be, check_consistency, one-step propagation) is not done; the full statement "
+               "is kept as count_search_exact_statement. The concrete executable model countAll is tied to the code handle for handle (emitted vectors in order, node tables) and the "
+               "implementation's answers are compared as multisets with the brute-force stable models of the specification; the pre-study defect D1 (models lost) was repaired in /repo.",
+    level_note="Trusted: Lean kernel + standard axioms; the instance laws of the generic theorem are not yet proved for the concrete model (partial); correspondence differential (n <= 7); "
+               "countLogic in the driver is a 'partial def' (termination not proved in Lean; the generic machine is fuel-based and proved).",
+    technique="Lean 4 proof (generic branching-search machine with soundness laws; cube theorems) + handle-exact correspondence + brute-force specification oracle",
+    jobs=[Job("adf", 1500, 60000, size=6, size_thorough=7, extra=("count",),
+              relevant=heads("build", "adopt", "stmca", "stmcb", "adump", "wfcheck"), nontrivial=nt_adf)],
+    rule=ADF_GEN + "stable_count_optimisation_heu_a/b on native, hybrid and pre-grounded hybrid objects in both call orders; emitted vectors (in order) and node tables compared with the Lean model, "
+         "the multiset of answers with Spec.stableAll; non-trivial = distinct ADF with >= 2 statements and >= 5 nodes",
+    assumptions=["well-formed ADFs"],
+)
+PROPS["C05"] = dict(
+    level_text="Machine-checked proofs (Lean 4) on the abstract nogood-search machine (same control flow as nogood_internal; heuristic = arbitrary oracle indexed by the number of choices, only "
+               "required to propose an undecided statement): SAFETY - if the run halts, the emitted list is exactly the target models, each once (C05.exact_if_halts, init_invariant); LIVENESS - "
+               "the run halts (terminates, by the big-step lemma; rests on the structure lemma cl_flip proved for the concrete bucketed closure); all five closure laws are proved for the concrete "
+               "closure model; the generic stuttering-simulation lemma (stutter_transfer); validity of Simple, both counting heuristics and the scripted/Rand shape for every generator output "
+               "(builtin_heuristics_valid). PARTIAL: the instantiation of the abstract parameters with the concrete steps and the stuttering simulation between the concrete loop SM.ngIter and the "
+               "abstract iteration are not yet proved (full statement: ng_search_statement). The concrete loop is tied to the code handle for handle: emitted vectors in order, the interpretations "
+               "shown to scripted custom heuristics, node tables; all answers are compared with the brute-force specification; Rand runs under several seeds with a watchdog (a hang is a failing input); "
+               "the channel variants must end the consumer loop (sender dropped).",
+    level_note="Trusted: Lean kernel + standard axioms; concrete-to-abstract simulation not yet proved (partial); Rand's generator (StdRng) is not modelled - its runs are judged by the specification and the "
+               "watchdog only; sender drop is Rust ownership, observed; correspondence differential (n <= 7).",
+    technique="Lean 4 proof (invariant + well-founded big-step argument on an abstract machine, closure laws on the concrete store) + handle-exact correspondence incl. heuristic traces + specification oracle + hang watchdog",
+    jobs=[Job("adf", 700, 30000, size=6, size_thorough=7, extra=("ng",), timeout=300,
+              relevant=heads("build", "adopt", "ng", "ngch", "adump", "wfcheck"), nontrivial=nt_adf)],
+    rule=ADF_GEN + "stable_nogood / two_val_nogood_channel / stable_nogood_channel with Simple, both counting heuristics, 4 scripted custom heuristics (PRNG-chosen undecided statement and value per call, "
+         "trace logged) and 3 Rand seeds per ADF, on native and bridged objects; outputs in order + traces + node tables vs the Lean model, multisets vs Spec; non-trivial = distinct ADF with >= 2 statements and >= 5 nodes",
+    assumptions=["well-formed ADFs; custom heuristics always propose an undecided statement with a truth value"],
+)
+PROPS["C09"] = dict(
+    level_text="Machine-checked proof (Lean 4): native compilation preserves the Boolean function of a formula of any size (C09.compile_one) and of the whole framework as from_parser builds it "
+               "(from_parser_correct); the bridge replay of an ordered dump through node yields handles with the dump's functions in any well-formed store (bridge_preserves); the pre-grounded "
+               "function is the condition with the grounded values substituted (pregrounded_function). VERIFIED VALIDATOR: isoCheck (validator_sound) is executed on every explored real store: "
+               "after wfCheck of the dumped table, every statement's handle in the bridged / pre-grounded store is compared with the model's natively compiled handle (resp. grounded residual) "
+               "without truth tables - so each compiled ADF is validated individually, also for 24-48 statements with deep formulas. Native stores are compared handle for handle with the model.",
+    level_note="Trusted: Lean kernel + standard axioms; biodivine's own compilation is outside (its dump is validated, not its algorithm); parser-to-formula step is C08's; correspondence differential.",
+    technique="Lean 4 proof (induction on formulas; dump replay invariant) + translation validation with a verified validator on every explored store + handle-exact correspondence",
+    jobs=[Job("adf", 40, 1000, size=48, extra=("large",), relevant=heads("build", "adopt", "adump", "wfcheck"),
+              nontrivial=lambda st: int(st.get("n", 0)) >= 20 and int(st.get("nodes", 0)) >= 50, label="adf-large"),
+          Job("adf", 800, 30000, size=6, size_thorough=7, extra=("sem",), relevant=heads("build", "adopt", "adump", "wfcheck"), nontrivial=nt_adf, label="adf-small"),
+          Job("adf", 150, 5000, size=6, extra=("present",), relevant=heads("presented"), nontrivial=nt_adf, label="adf-orders")],
+    rule="large ADFs (24-48 statements, formula depth 5-11, diagrams up to thousands of nodes): native build handle-exact vs model, bridged and pre-grounded stores validated by wfCheck + isoCheck; "
+         "small ADFs additionally by truth table; permuted fact orders x {none, lx, an} sorting: condition handles per statement vs the model under the same order; "
+         "non-trivial = distinct ADF (large: >= 20 statements and >= 50 nodes)",
+    assumptions=["well-formed ADFs"],
+)
+PROPS["C10"] = dict(
+    level_text="Machine-checked proof (Lean 4) at specification level: the consequence operator commutes with every re-presentation (bijective renumbering/renaming of statements) "
+               "(C10.consequence_operator_equivariant), hence complete and two-valued models correspond (complete_equivariant). PARTIAL: the corollaries for the least fixpoint and the reduct "
+               "(grounded, stable) are stated (lfp_equivariant_statement) but not written out. Tie to the code: metamorphic runs - each generated ADF is presented 5 ways (random permutation of all "
+               "s/ac facts incl. ac before s, sorting none / lexicographic / alphanumeric, random label classes incl. keyword-like and numeric labels, random whitespace layout); grounded, complete, "
+               "stable and two-valued answers of the native and biodivine back-ends are mapped back to the original statements and compared with the specification's answers for the ORIGINAL "
+               "framework; the variable order reported by the parser is checked (permutation; declaration order without sorting; byte-wise ascending labels with lexicographic sorting), and the "
+               "native run under that order is compared handle for handle with the model.",
+    level_note="Trusted: Lean kernel + standard axioms; sort_unstable / natural_lexical_cmp trusted to return a permutation (checked per run); lfp/stable equivariance corollaries not yet proved (partial); CLI flags --lx/--an are covered by C15.",
+    technique="Lean 4 proof (equivariance of the consequence operator) + metamorphic correspondence runs against the order-independent specification",
+    jobs=[Job("adf", 500, 20000, size=6, size_thorough=7, extra=("present",), relevant=heads("present", "presented", "ordercheck"), nontrivial=nt_adf)],
+    rule=ADF_GEN + "5 presentations per ADF (fact permutation x sorting mode x label class x layout); answers as statement->value maps vs Spec on the original; order checks; non-trivial = distinct ADF with >= 2 statements and >= 5 nodes",
+    assumptions=["labels alphanumeric (quoted labels are C08/C15)"],
+)
+PROPS["C11"] = dict(
+    level_text="Machine-checked proof (Lean 4): every operation sequence only extends the node table and keeps the invariant, so every earlier handle keeps its function (C11.handles_stable, from the "
+               "refinement theorem of C06/C07); the grounded answer and the complete filter depend only on the Boolean functions of the conditions, hence give the same answer on a fresh object and "
+               "on one with an arbitrary call history (grounded_history_independent, complete_filter_history_independent). Determinism is immediate for the model (pure functions of explicit "
+               "inputs); that the code has no hidden dependence on hash iteration order or entropy is observed. PARTIAL: order-of-emission independence for the two searches across histories is "
+               "checked by the runs only. Tie to the code: random call histories (all semantics, both counting searches, nogood search with 4 heuristics, extra formulas built on the shared store, "
+               "counts) followed by probes on the used object and on a freshly built twin, all compared with the model (handle-exact, so the model tracks the same memo state) and the specification; "
+               "the REAL memo / unique / count / dependency tables are dumped through the add-only hook and audited entry by entry (memoCheck) after each history.",
+    level_note="Trusted: Lean kernel + standard axioms; hook verif_dump_tables (read-only); search-order independence only tested; Rand seeded runs are covered by C05's runs.",
+    technique="Lean 4 proof (append-only store invariant; answers as functions of denotations) + handle-exact correspondence over call histories + audit of the real memo tables",
+    jobs=[Job("adf", 500, 20000, size=5, size_thorough=6, extra=("hist",), relevant=None, nontrivial=nt_adf)],
+    rule=ADF_GEN + "2-10 random API calls on one object (native, hybrid or pre-grounded), then six probe calls on it and on a fresh twin; memoCheck of the real tables; non-trivial = distinct history on an ADF with >= 2 statements and >= 5 nodes",
+    assumptions=["well-formed ADFs"],
+)
+
+
 # ----------------------------------------------------------------------------------------------
 
 def case_hash(reqs):
